@@ -14,7 +14,6 @@ open Reader
 /-- every wire constant in the current headers (incl. the table of valid header combinations) equals its documented value -/
 theorem wire_consts_documented : codeCfg = docCfg := by decide
 
-theorem codeCfg_ok : CfgOK codeCfg := by rw [wire_consts_documented]; decide
 
 /-- what the current writer would emit for the same logical content -/
 def currentImage (c : Cfg) (k : Nat) (b : Body) : Image :=
